@@ -1695,3 +1695,29 @@ Qed.
    every environment, proxies included); the idle list is keyed by the target as well - generated fact *)
 Lemma gen_key_keeps_target : pool_key_keeps_https_target = true.
 Proof. reflexivity. Qed.
+
+(* ---------- what is learned about one authority stays with it (round 5) ---------- *)
+Lemma gen_altsvc_key : altsvc_key_has_port = true.
+Proof. reflexivity. Qed.
+
+(* two authorities - the same origin under two names, or two origins on one host name with different ports:
+   whatever the client did and learned at A (Alt-Svc entries, HTTP/3 connections ...), an unforced request to B is
+   served over HTTP/3 only if B itself has a QUIC listener, and over HTTP/2 only if B's TLS listener offers h2 *)
+Lemma other_authority_negotiates_for_itself eA eB ops :
+  let cB := snd (snd (run2 eA eB (new_client, new_client) ops)) in
+  c_force cB = FNone -> e_https eB = true ->
+  match outcome_of (do_req eB cB) with
+  | Use V2 => mem_bytes alpn_h2 (s_alpn (e_srv eB)) = true
+  | Use V3 => s_h3 (e_srv eB) = true
+  | Cleartext => False
+  | _ => True
+  end.
+Proof.
+  intros cB F Hs. subst cB. destruct (run2_proj eA eB ops new_client new_client) as [_ PB].
+  rewrite PB in *.
+  assert (R : reachable eB (snd (run eB new_client (proj_host true ops)))) by (eexists; reflexivity).
+  pose proof (unforced_https_negotiated eB _ R F Hs) as U.
+  pose proof (never_in_clear eB _ R) as NC.
+  destruct (outcome_of (do_req eB (snd (run eB new_client (proj_host true ops))))) as [[| |]| |]; try exact I; try exact U.
+  apply NC. reflexivity.
+Qed.
